@@ -927,7 +927,7 @@ ODD_LABELS = ["{north}", "turn{90}", "{", "}", "{0}", "{}", "%s", "%(x)s", "100%
 ODD_GROUPS = [[" left", "left", "left "], ["\tup", "up"], ["se\u00f1al", "sen\u0303al"], ["\u00e9t\u00e9", "e\u0301te\u0301"],
               ["\u212b", "\u00c5"], ["stra\u00dfe", "strasse"], ["\uff41", "a"], ["x\u200b", "x"], ["None", "none"], ["0", "00"],
               # one label CONTAINED in another (a list handed over as a bare string turns `in` into a substring test)
-              ["go", "go_fast", "no_go"], ["a1", "a10", "ba1"], ["l", "left_l", "ll"]]
+              ["true", "True"], ["false", "False"], ["null", "NULL", "nil"], ["nan", "inf"], ["go", "go_fast", "no_go"], ["a1", "a10", "ba1"], ["l", "left_l", "ll"]]
 
 
 def odd_label_map(g, rng):
@@ -1018,3 +1018,20 @@ def close_costs_game(rng):
     xtl = [[("a", 1), ("b", 2)], [("x", 3), ("y", 4)], [("x", 5), ("y", 6)],
            [(q, 8), (1 - q, 7)], [(Fr(1), 8)], [(q, 8), (1 - q, 7)], [(Fr(1), 8)], [(Fr(1), 7)], [(Fr(1), 8)]]
     return finish(rewards, players, xtl, [8], {"family": "close_costs"})
+
+
+def zero_prob_live_game(rng):
+    """a probabilistic row that lists a transition of probability exactly 0.0 into a LIVE rewarded state which no
+    other state moves to, next to entries that already sum to 1, plus a dead branch elsewhere so that conditioning
+    has something to do: the zero-weight transition is a transition between positive-probability states and stays,
+    so its target stays referenced (and keeps its values) wherever it is written in the row"""
+    pos = rng.randint(0, 2)
+    front = rng.choice([P1, P2, PR])
+    a, b, c, lose, win = 2, 3, 4, 5, 6
+    row = [(Fr(1, 2), a), (Fr(1, 2), b)]
+    row.insert(pos, (Fr(0), c))
+    xtl = [[(Fr(1), 1)] if front == PR else [("go", 1)], row,
+           [(Fr(1, 2), win), (Fr(1, 2), lose)], [(Fr(1), win)], [(Fr(3, 4), win), (Fr(1, 4), 0)],
+           [(Fr(1), lose)], [(Fr(1), win)]]
+    players = [front, PR, PR, PR, PR, PR, PR]
+    return finish([0, 1, 2, 1, rng.randint(3, 9), 0, 0], players, xtl, [win], {"family": "zero_prob_live"})
